@@ -5,8 +5,9 @@ single-threaded by harness/detsim.py; the harness chooses the order of task exit
 deliveries, scheduler passes (and an occasional killController).
 Model: lean/St4sd/Model/Ctrl.lean via drv-c01.  Theorems: lean/St4sd/Props/C01.lean.
 
-Per case: a generated FlowIR template is replicated by the real loader, exit scripts are drawn per
-component, the real Controller.run() is driven by a random schedule; the recorded op list is then
+Per case: a generated FlowIR template (1-3 stages) is replicated by the real loader, exit scripts are drawn
+per component, the stage loop (Controller.initialise / real Controller.run() per stage, elaunch's
+continue-on-error rule) is driven by a random schedule; the recorded op list is then
 applied to the Lean model and the canonical state after EVERY op is compared
 ({component: (state, in comp_done, in comp_staged_in, #engine.run(), finishCalled)}, stop_executing,
 queued notifications) as well as the launch log (what every first launch saw of its producers).
@@ -25,10 +26,13 @@ from harness import detsim
 
 CLASSIFIERS = {}
 
-RULE = ("case = (FlowIR template of 2-6 components over 1-2 stages with at most one replicated chain, aggregators, "
-        "repeating observers, shutdownOn/restartHookOn/maxRestarts drawn at random; exit script per component; "
-        "random schedule of task exits / postmortem deliveries / finished deliveries / scheduler passes / ticks / "
-        "rare kill, under one of 6 delivery biases).  Non-trivial = the workflow has >= 3 components after "
+RULE = ("case = (FlowIR template of 2-8 components over 1-3 stages - random, or built around a motif: replicated "
+        "producer with an aggregating consumer in the same or a later stage / shutdown chain across stages / "
+        "observer with several subjects - with at most one replicated chain, aggregators (also without replicated "
+        "inputs), repeating observers, shutdownOn/restartHookOn/maxRestarts drawn at random, continue-on-error on "
+        "some stages; exit script per component; the whole stage loop is run: random schedule of task exits / "
+        "postmortem deliveries / finished deliveries / scheduler passes / ticks / rare kill, under one of 6 "
+        "delivery biases, stage transitions when a stage completes).  Non-trivial = the workflow has >= 3 components after "
         "replication, >= 2 components were launched and at least one scheduler pass ran inside a window in which "
         "some component had reached a final state that the controller had not recorded yet.  Distinct by "
         "canonical JSON of (template, scripts, ops).")
@@ -49,7 +53,8 @@ def check_case(ctx, case, ops=None, tag_prefix=""):
     else:
         factory = lambda sim: CS.random_chooser(rng, case["personality"], case.get("p_kill", 0.0))
     try:
-        res = CS.run_real(case["template"], scripts if scripts is not None else mk_scripts, factory)
+        res = CS.run_real(case["template"], scripts if scripts is not None else mk_scripts, factory,
+                          cont=case.get("cont", ()))
     except Exception as exc:  # noqa: the generated package was rejected / could not be built
         ctx.tag(tag_prefix + "build-error:" + type(exc).__name__)
         return None
@@ -72,13 +77,30 @@ def check_case(ctx, case, ops=None, tag_prefix=""):
         tags.append("has:replicas")
     if any(c["stage"] > 0 for c in res.info["comps"]):
         tags.append("has:two-stages")
+    tags.append("stages=%d" % (res.info["lastStage"] + 1))
+    tags.append("stages-run=%d" % len(res.results))
+    if res.info["cont"]:
+        tags.append("has:continue-on-error")
+    comps_ = res.info["comps"]
+    if any(c["isAgg"] and any(comps_[p]["isRepl"] and comps_[p]["stage"] < c["stage"] for p in c["preds"])
+           for c in comps_):
+        tags.append("has:aggregator-in-later-stage-than-replicas")
+    if any(c["isAgg"] and not any(comps_[p]["isRepl"] for p in c["preds"]) for c in comps_):
+        tags.append("has:aggregator-without-replicated-input")
+    for i_, views in res.launches:
+        c_ = comps_[i_]
+        if c_["stage"] > 0 and any(comps_[p]["stage"] < c_["stage"] and v not in (None, "finished")
+                                   for (p, v, _s) in views):
+            tags.append("launch-saw-nonfinished-final-producer-of-earlier-stage")
+            break
     finals = set(res.final)
     tags += ["final:" + f for f in sorted(finals)]
     if win:
         tags.append("sched-inside-window")
     if any(c[3] > 1 for c in (res.snaps[-1]["comps"] if res.snaps else [])):
         tags.append("restart-happened")
-    ctx.case({"template": case["template"], "scripts": res.scripts, "ops": res.ops},
+    ctx.case({"template": case["template"], "cont": list(case.get("cont", ())), "scripts": res.scripts,
+              "ops": res.ops},
              nontrivial=(n >= 3 and launched >= 2 and win >= 1), tags=tags)
     ctx.tag("ops-compared", len(res.ops))
     ctx.tag("launches-checked", len(res.launches))
@@ -114,8 +136,8 @@ def check_case(ctx, case, ops=None, tag_prefix=""):
 
 
 def gen_case(rng, idx):
-    two = rng.random() < 0.3
-    return {"template": CS.gen_template(rng, two_stage=two), "scripts": None, "seed": rng.randrange(1 << 30),
+    template, cont = CS.gen_workflow(rng)
+    return {"template": template, "cont": cont, "scripts": None, "seed": rng.randrange(1 << 30),
             "personality": rng.choice(sorted(CS.PERSONALITIES)), "p_kill": rng.choice([0, 0, 0, 0.01, 0.03]),
             "flavour": None}
 
@@ -168,7 +190,7 @@ def run_n(ctx, n):
 
 def run(ctx):
     setup(ctx)
-    run_n(ctx, 300 if ctx.tier == "quick" else 3600)
+    run_n(ctx, 300 if ctx.tier == "quick" else 3000)
 
 
 def replay(ctx, doc):
